@@ -364,6 +364,7 @@ class HttpStreamSession:
 
     __slots__ = (
         "_call_state_bytes",
+        "_cancelled",
         "_capabilities",
         "_client",
         "_compression_level",
@@ -418,6 +419,7 @@ class HttpStreamSession:
         self._retry_config = retry_config
         self._compression_level = compression_level
         self._capabilities: HttpServerCapabilities | None = None
+        self._cancelled = False
 
     def _maybe_externalize_request(self, body: bytes) -> bytes:
         """Pre-emptively externalize *body* if cached caps say it's too large.
@@ -622,6 +624,8 @@ class HttpStreamSession:
 
         Yields pre-loaded batches from init, then follows continuation tokens.
         """
+        if self._cancelled:
+            raise RpcError("ProtocolError", "Stream has been cancelled", "")
         # Yield pre-loaded batches from init response
         yield from self._pending_batches
         self._pending_batches.clear()
@@ -775,6 +779,7 @@ class HttpStreamSession:
         ``cancel()``, the session is marked finished; further ``exchange()``
         or iteration raises ``RpcError``.
         """
+        self._cancelled = True
         if self._finished or self._state_bytes is None:
             self._finished = True
             self._state_bytes = None
